@@ -527,6 +527,9 @@ def run(ctx):
                 if (d.startswith(A.DR) or d.startswith(A.LR)) and d not in c16.LOOKS:
                     bad.append(d)
         r6.check(not bad, "%s/reader-effects" % h, "%s decides through the look-ahead primitive only (forbidden: %s)" % (h, sorted(set(bad))), fn.loc())
+    from . import builders
+    r10 = ctx.rule("C07-R10", "ignore_unknown_lines (sat_solver_log::Config) is set by its own setter only", floor=2)
+    builders.run(ctx, r10, ["flussab_cnf::sat_solver_log::Config"], 1)
     return (
         "other",
         "typestate (blank-normal form) over all flussab-cnf parser entry points; exact end-of-word class; loop / dispatch shape rules for comments, blank lines, line continuation and missing final newline. Decides these structural necessary conditions, not the equality of the values parsed from two renderings.",
